@@ -849,6 +849,61 @@ def table_eval(ctx, jobs, res):
     ctx.sample({"part": "table", "cell": list(jobs[len(jobs) // 2][1]), "variant": jobs[len(jobs) // 2][0]})
 
 
+# -------------------------------------------------------------- part: selfcheck
+def part_selfcheck(ctx):
+    """Harness soundness, not part of the verdict.  On the legal handshake of every variant:
+    (a) every message of the accepted transcript (victim's and adversary's) round-trips through
+    the reftls codec byte-exactly, (b) reftls verified the victim's own Finished / signature,
+    (c) the third-opinion derivation from the bare transcript (`derive_all_secrets`) equals the
+    adversary's key schedule and every secret the victim released."""
+    runs = msgs_rt = agree_total = 0
+    for tv, states in LEGAL_PREFIXES.items():
+        variant = tv.split("+")[0]
+        role = VARIANTS[variant]["role"]
+        hist = states.get("CONNECTED" if role == "client" else "S_CONNECTED")
+        if not hist:
+            continue
+        w = World(variant).start()
+        ok = True
+        for label in hist:
+            kind, kw = w.kinds[label]
+            raw = w.adv.make(kind, **kw)
+            if w.feed(raw) is not None:
+                ok = False   # reported by the table part as legal_refused
+                break
+            w.after_accept(label, raw)
+        if not ok:
+            continue
+        runs += 1
+        for m in w.adv.transcript:
+            if R.parse_message(m).encode() != m:
+                raise core.HarnessError("reftls codec does not round-trip a %s of %s"
+                                        % (R.HANDSHAKE_TYPE_NAMES.get(m[0], m[0]), tv))
+            msgs_rt += 1
+        if _flight_ok(w) is False:
+            raise core.HarnessError("reftls cannot verify the victim's flight in %s" % tv)
+        if role == "client":
+            third = R.derive_all_secrets(w.adv.transcript, private_key=w.adv.dh_private,
+                                         private_key_role="server", psk=w.adv.selected_psk)
+        else:
+            third = R.derive_all_secrets(w.adv.transcript, private_key=w.adv.dh_privates[w.adv.group],
+                                         private_key_role="client",
+                                         psk=w.adv.offer_psk["psk"] if w.adv.psk_selected else None)
+        for k, v in w.adv.secrets().items():
+            if third.get(k) != v:
+                raise core.HarnessError("derive_all_secrets disagrees with the adversary on %s in %s" % (k, tv))
+        agree, differ = check_secrets(w)
+        if differ:
+            print("[C11] NOTE: %s: %d released secrets differ from reftls (not judged by C11)" % (tv, differ))
+        agree_total += agree
+        if variant == "s_psk" and not w.victim.session_resumed:
+            raise core.HarnessError("s_psk: the server did not resume the offered session")
+        if tv == "c_offered+psk" and not w.victim.session_resumed:
+            raise core.HarnessError("c_offered+psk: the client did not resume")
+    ctx.part("selfcheck", legal_handshakes=runs, messages_round_tripped=msgs_rt,
+             released_secrets_equal_to_third_opinion=agree_total)
+
+
 # ---------------------------------------------------------------- part: closure
 _CLOSURE_VARIANT = [None]
 
@@ -1057,6 +1112,7 @@ def run(ctx):
     for name in sjobs:
         flat += sjobs[name][0]
     res = core.pmap(_job, flat, workers=w, chunksize=32)
+    part_selfcheck(ctx)
     if "table" in parts:
         part_start_row(ctx)
         table_eval(ctx, tjobs, res[: len(tjobs)])
